@@ -401,3 +401,189 @@ func c08Round6(ctx *core.Ctx, d *ssa.Function, xs, ys ssa.Value) {
 		ctx.Note("F12", "diff.Diff#eof-exit", d.Pos(), "no early exit on reaching the end of the texts found; clause not decided")
 	}
 }
+
+// c18SpaceClass (RI11): the bytes peekByte skips as white space, computed exactly.
+// For each of the 256 byte values the branch tests of the skipping loop are decided (they compare
+// the current byte with constants, possibly combined through && and || or moved into a helper that
+// was merged back); a value belongs to the class when the decided path reaches a readByte call in
+// a block that goes straight back to the loop test. Anything that depends on other state ends the
+// evaluation of that value as "not skipped".
+func c18SpaceClass(ctx *core.Ctx) {
+	p := ctx.P
+	ctx.Rule("RI11", "white space is exactly blank, tab, newline, carriage return, form feed and semicolon: the set of byte values for which peekByte(true) reads the next byte and tests the loop again without looking at anything else - computed over all 256 values from the comparisons with constants - is { ' ', '\\t', '\\n', '\\r', '\\f', ';' } (a range written one short drops CR, and a CRLF file then has no imports)", 1)
+	pk := p.Func("imports", "(*importReader).peekByte")
+	if pk == nil {
+		ctx.Unknown("RI11", "imports.peekByte", token.NoPos, "peekByte not found")
+		return
+	}
+	g := graph(p, pk)
+	// the current byte: a byte-typed phi in a loop header
+	var cphi *ssa.Phi
+	var loop natLoop
+	for _, l := range loopsOf(g) {
+		for _, ins := range pk.Blocks[l.Header].Instrs {
+			ph, ok := ins.(*ssa.Phi)
+			if !ok {
+				break
+			}
+			if ph.Type().String() == "byte" && (cphi == nil || len(l.Blocks) > len(loop.Blocks)) {
+				cphi, loop = ph, l
+			}
+		}
+	}
+	if cphi == nil {
+		ctx.Unknown("RI11", "imports.peekByte#class", pk.Pos(), "no loop carrying the current byte found")
+		return
+	}
+	isC := func(v ssa.Value) bool {
+		for {
+			if cv, ok := v.(*ssa.Convert); ok {
+				v = cv.X
+				continue
+			}
+			break
+		}
+		return v == ssa.Value(cphi)
+	}
+	// truth of a condition for byte value bv, entering block blk from pred (for merged flags)
+	var truth func(v ssa.Value, bv int64, pred map[*ssa.BasicBlock]*ssa.BasicBlock, depth int) (bool, bool)
+	truth = func(v ssa.Value, bv int64, pred map[*ssa.BasicBlock]*ssa.BasicBlock, depth int) (bool, bool) {
+		if depth > 12 {
+			return false, false
+		}
+		if k, ok := ssax.ConstBool(v); ok {
+			return k, true
+		}
+		switch x := v.(type) {
+		case *ssa.UnOp:
+			if x.Op == token.NOT {
+				t, ok := truth(x.X, bv, pred, depth+1)
+				return !t, ok
+			}
+		case *ssa.BinOp:
+			var a, b int64
+			switch {
+			case isC(x.X):
+				k, ok := ssax.ConstInt(x.Y)
+				if !ok {
+					return false, false
+				}
+				a, b = bv, k
+			case isC(x.Y):
+				k, ok := ssax.ConstInt(x.X)
+				if !ok {
+					return false, false
+				}
+				a, b = k, bv
+			default:
+				return false, false
+			}
+			switch x.Op {
+			case token.EQL:
+				return a == b, true
+			case token.NEQ:
+				return a != b, true
+			case token.LSS:
+				return a < b, true
+			case token.LEQ:
+				return a <= b, true
+			case token.GTR:
+				return a > b, true
+			case token.GEQ:
+				return a >= b, true
+			}
+		case *ssa.Phi:
+			if pb, ok := pred[x.Block()]; ok {
+				for k, q := range x.Block().Preds {
+					if q == pb {
+						return truth(x.Edges[k], bv, pred, depth+1)
+					}
+				}
+			}
+		}
+		return false, false
+	}
+	// evaluation starts at the loop test; the skip-space flag counts as set wherever it is tested
+	start := pk.Blocks[loop.Header]
+	skips := func(bv int64) bool {
+		pred := map[*ssa.BasicBlock]*ssa.BasicBlock{}
+		blk := start
+		seenCmp := false
+		for steps := 0; steps < 64; steps++ {
+			for _, ins := range blk.Instrs {
+				c, ok := ins.(*ssa.Call)
+				if !ok {
+					continue
+				}
+				if _, isB := c.Call.Value.(*ssa.Builtin); isB {
+					continue
+				}
+				if !strings.HasSuffix(ssax.CalleeName(&c.Call), "importReader).readByte") {
+					return false
+				}
+				// a read: is the loop test next, with nothing examined in between?
+				nb := blk
+				for hops := 0; hops < 4; hops++ {
+					if len(nb.Succs) != 1 {
+						return false
+					}
+					nb = nb.Succs[0]
+					if nb.Index == loop.Header {
+						return true
+					}
+					for _, j := range nb.Instrs {
+						if _, isCall := j.(*ssa.Call); isCall {
+							return false
+						}
+					}
+				}
+				return false
+			}
+			last := blk.Instrs[len(blk.Instrs)-1]
+			switch x := last.(type) {
+			case *ssa.Jump:
+				pred[blk.Succs[0]] = blk
+				blk = blk.Succs[0]
+			case *ssa.If:
+				t, ok := truth(x.Cond, bv, pred, 0)
+				if ok {
+					seenCmp = true
+				} else {
+					cond, pos := stripNotB(x.Cond, true)
+					if prm, isP := cond.(*ssa.Parameter); isP && prm.Type().String() == "bool" {
+						t, ok = pos, true // the skip-space flag is set
+					} else if !seenCmp {
+						// the loop's own test (reader state): the case of interest is that the loop goes on
+						in0, in1 := loop.Blocks[blk.Succs[0].Index], loop.Blocks[blk.Succs[1].Index]
+						if in0 != in1 {
+							t, ok = in0, true
+						}
+					}
+				}
+				if !ok {
+					return false
+				}
+				nx := blk.Succs[1]
+				if t {
+					nx = blk.Succs[0]
+				}
+				pred[nx] = blk
+				blk = nx
+			default:
+				return false
+			}
+			if !loop.Blocks[blk.Index] || (blk.Index == loop.Header && steps > 0) {
+				return false
+			}
+		}
+		return false
+	}
+	want := map[int64]bool{' ': true, '\t': true, '\n': true, '\r': true, '\f': true, ';': true}
+	var diff []string
+	for bv := int64(0); bv < 256; bv++ {
+		if got := skips(bv); got != want[bv] && len(diff) < 6 {
+			diff = append(diff, strings.TrimSpace(strings.Join([]string{"byte", itoa(int(bv)), "skipped=" + boolStr(got)}, " ")))
+		}
+	}
+	ctx.Check(len(diff) == 0, "RI11", "imports.peekByte#space-class", start.Instrs[0].Pos(), "the bytes skipped as white space are exactly blank, \\t, \\n, \\r, \\f and ';' %v", diff)
+}
